@@ -2,7 +2,6 @@ package printer
 
 import (
 	"fmt"
-	"strconv"
 	"strings"
 
 	"reflect"
@@ -89,6 +88,42 @@ func getDescription(raw interface{}) string {
 		desc = join([]string{`"""`, desc, `"""`}, sep)
 	}
 	return desc
+}
+
+// quoteString quotes s as a GraphQL StringValue using only the escape
+// sequences the lexer accepts (\" \\ \b \f \n \r \t \uXXXX). strconv.Quote is
+// not suitable: it emits Go escapes such as \a, \v, \x7f and \U0001f600,
+// which the GraphQL lexer rejects.
+func quoteString(s string) string {
+	var b strings.Builder
+	b.WriteByte('"')
+	for i := 0; i < len(s); i++ {
+		c := s[i]
+		switch c {
+		case '"':
+			b.WriteString(`\"`)
+		case '\\':
+			b.WriteString(`\\`)
+		case '\b':
+			b.WriteString(`\b`)
+		case '\f':
+			b.WriteString(`\f`)
+		case '\n':
+			b.WriteString(`\n`)
+		case '\r':
+			b.WriteString(`\r`)
+		case '\t':
+			b.WriteString(`\t`)
+		default:
+			if c < 0x20 {
+				fmt.Fprintf(&b, `\u%04X`, c)
+			} else {
+				b.WriteByte(c)
+			}
+		}
+	}
+	b.WriteByte('"')
+	return b.String()
 }
 
 func toSliceString(slice interface{}) []string {
@@ -375,7 +410,7 @@ var printDocASTReducer = map[string]visitor.VisitFunc{
 	"StringValue": func(p visitor.VisitFuncParams) (string, interface{}) {
 		switch node := p.Node.(type) {
 		case *ast.StringValue:
-			return visitor.ActionUpdate, strconv.Quote(node.Value)
+			return visitor.ActionUpdate, quoteString(node.Value)
 		case map[string]interface{}:
 			return visitor.ActionUpdate, `"` + getMapValueString(node, "Value") + `"`
 		}
